@@ -195,7 +195,7 @@ func verifyClientRequest(w http.ResponseWriter, r *http.Request) (errCode int, _
 	}
 
 	// The RFC states to remove any leading or trailing whitespace.
-	websocketSecKey := strings.TrimSpace(websocketSecKeys[0])
+	websocketSecKey := trimOWS(websocketSecKeys[0])
 	if v, err := base64.StdEncoding.DecodeString(websocketSecKey); err != nil || len(v) != 16 {
 		return http.StatusBadRequest, fmt.Errorf("WebSocket protocol violation: invalid Sec-WebSocket-Key %q, must be a 16 byte base64 encoded string", websocketSecKey)
 	}
@@ -241,7 +241,7 @@ func selectSubprotocol(r *http.Request, subprotocols []string) string {
 	cps := headerTokens(r.Header, "Sec-WebSocket-Protocol")
 	for _, sp := range subprotocols {
 		for _, cp := range cps {
-			if strings.EqualFold(sp, cp) {
+			if asciiEqualFold(sp, cp) {
 				return cp
 			}
 		}
@@ -293,7 +293,7 @@ func acceptDeflate(ext websocketExtension, mode CompressionMode) (*compressionOp
 
 func headerContainsTokenIgnoreCase(h http.Header, key, token string) bool {
 	for _, t := range headerTokens(h, key) {
-		if strings.EqualFold(t, token) {
+		if asciiEqualFold(t, token) {
 			return true
 		}
 	}
@@ -315,7 +315,7 @@ func websocketExtensions(h http.Header) []websocketExtension {
 
 		vals := strings.Split(extStr, ";")
 		for i := range vals {
-			vals[i] = strings.TrimSpace(vals[i])
+			vals[i] = trimOWS(vals[i])
 		}
 
 		e := websocketExtension{
@@ -332,13 +332,42 @@ func headerTokens(h http.Header, key string) []string {
 	key = textproto.CanonicalMIMEHeaderKey(key)
 	var tokens []string
 	for _, v := range h[key] {
-		v = strings.TrimSpace(v)
+		v = trimOWS(v)
 		for _, t := range strings.Split(v, ",") {
-			t = strings.TrimSpace(t)
+			t = trimOWS(t)
 			tokens = append(tokens, t)
 		}
 	}
 	return tokens
+}
+
+// trimOWS removes the optional white space of HTTP header fields, space and
+// horizontal tab, from both ends of s. Unlike strings.TrimSpace it leaves
+// Unicode white space alone: that is not white space in a header.
+func trimOWS(s string) string {
+	return strings.Trim(s, " \t")
+}
+
+// asciiEqualFold reports whether s and t are equal under ASCII case folding.
+// Header tokens are ASCII: strings.EqualFold would also take the Kelvin sign
+// for a k and the long s for an s.
+func asciiEqualFold(s, t string) bool {
+	if len(s) != len(t) {
+		return false
+	}
+	for i := 0; i < len(s); i++ {
+		if asciiLower(s[i]) != asciiLower(t[i]) {
+			return false
+		}
+	}
+	return true
+}
+
+func asciiLower(b byte) byte {
+	if 'A' <= b && b <= 'Z' {
+		return b + ('a' - 'A')
+	}
+	return b
 }
 
 var keyGUID = []byte("258EAFA5-E914-47DA-95CA-C5AB0DC85B11")
